@@ -841,6 +841,22 @@ def startTask(logger=None, action_type="", _serializers=None, **fields):
     return action
 
 
+def _start_action_with_fields(action_type, fields):
+    """
+    Like L{start_action} with the default logger, but the start fields are
+    given as a dictionary, so their names cannot collide with
+    L{start_action}'s own parameters (C{logger}, C{action_type},
+    C{_serializers}).
+    """
+    parent = current_action()
+    if parent is None:
+        action = Action(None, str(uuid4()), TaskLevel(level=[]), action_type)
+    else:
+        action = parent.child(None, action_type)
+    action._start(fields)
+    return action
+
+
 class TooManyCalls(Exception):
     """
     The callable was called more than once.
@@ -933,7 +949,7 @@ def log_call(
         if include_args is not None:
             callargs = {k: callargs[k] for k in include_args}
 
-        with start_action(action_type=action_type, **callargs) as ctx:
+        with _start_action_with_fields(action_type, callargs) as ctx:
             result = wrapped_function(*args, **kwargs)
             if include_result:
                 ctx.add_success_fields(result=result)
